@@ -15,6 +15,13 @@ rm -rf $D/zz_demo; cp -r zz_demo $D/zz_demo 2>/dev/null
 DEMO=$(python3 -c "import json;print(json.load(open('$W/meta.json')).get('demo_cmd',''))" 2>/dev/null)
 TAGS=""; case "$DEMO" in *"-tags verif"*) TAGS="-tags verif";; esac
 case "$DEMO" in *"go run"*) DEMOCMD="go run $TAGS ./zz_demo";; *) DEMOCMD="go test -mod=mod -vet=off -count=1 $TAGS ./zz_demo/...";; esac
+# bring the worktree to /repo's current HEAD (fix commits may have landed since it was created)
+H=$(git -C /repo rev-parse HEAD)
+if [ "$(git rev-parse HEAD)" != "$H" ]; then
+  git apply --check -R patch.diff 2>/dev/null && git apply -R patch.diff
+  git checkout -q --detach $H || exit 2
+  git apply patch.diff || { echo "patch does not apply on current HEAD"; exit 2; }
+fi
 # make sure the change is applied
 git apply --check -R patch.diff 2>/dev/null || git apply patch.diff
 echo "== build"; go build ./... ; B=$?
